@@ -170,7 +170,7 @@ fn inter_case(ctx: &mut Ctx, g: &Grp, ta: &CosetTable, va: &View, tb: &CosetTabl
 
 /// every op on the collected tables of one group
 fn explore(ctx: &mut Ctx, g: &Grp, tabs: &Tables, rng: &mut Rng, th: bool, stab: bool) {
-    let all_bases = if th { 24 } else { 8 };
+    let all_bases = if th { 48 } else { 8 };
     let core_rows = if th { 1200 } else { 400 };
     for (t, v, src) in &tabs.tabs {
         let rows = v.len();
@@ -197,7 +197,7 @@ fn explore(ctx: &mut Ctx, g: &Grp, tabs: &Tables, rng: &mut Rng, th: bool, stab:
     }
     // all ordered pairs of tables with a bounded product (sampled by a stride if too many)
     let bound = if th { 256 } else { 64 };
-    let cap = if th { 800 } else { 60 };
+    let cap = if th { 3000 } else { 120 };
     let mut pairs = vec![];
     for (i, a) in tabs.tabs.iter().enumerate() {
         for (j, b) in tabs.tabs.iter().enumerate() {
@@ -304,31 +304,31 @@ fn main() {
             enumerated(&g, &[vec![1, 2]], &mut tabs);
             enumerated(&g, &[vec![1, 1], vec![2]], &mut tabs);
         }
-        for _ in 0..(if th { 12 } else { 3 }) {
+        for _ in 0..(if th { 30 } else { 5 }) {
             let k = 1 + rng.below(2);
             let subs: Vec<Vec<isize>> = (0..k).map(|_| random_word(&mut rng, cg.nr_gens, 5)).collect();
             enumerated(&g, &subs, &mut tabs);
         }
-        low_index(&g, (if th { 6 } else { 4 }).min(cg.order.max(1)), &mut tabs);
+        low_index(&g, (if th { 6 } else { 5 }).min(cg.order.max(1)), &mut tabs);
         explore(&mut ctx, &g, &tabs, &mut rng, th, true);
     }
 
     // (2) infinite groups: (name, gens, relators, index bound quick, thorough)
     let inf: Vec<(&str, usize, Vec<Vec<isize>>, usize, usize)> = vec![
-        ("F2", 2, vec![], 3, 4),
+        ("F2", 2, vec![], 4, 5),
         ("F3", 3, vec![], 2, 3),
-        ("Z^2", 2, vec![comm(1, 2)], 4, 6),
-        ("Z^3", 3, vec![comm(1, 2), comm(1, 3), comm(2, 3)], 3, 4),
+        ("Z^2", 2, vec![comm(1, 2)], 5, 8),
+        ("Z^3", 3, vec![comm(1, 2), comm(1, 3), comm(2, 3)], 3, 5),
         ("surface-genus-2", 4, vec![[comm(1, 2), comm(3, 4)].concat()], 2, 3),
-        ("klein-bottle", 2, vec![vec![1, 2, -1, 2]], 4, 6),
+        ("klein-bottle", 2, vec![vec![1, 2, -1, 2]], 5, 7),
         ("nonorientable-genus-3", 3, vec![vec![1, 1, 2, 2, 3, 3]], 3, 4),
         ("triangle-2-3-7", 2, vec![pw(&[1], 2), pw(&[2], 3), pw(&[1, 2], 7)], 7, 9),
         ("triangle-2-4-5", 2, vec![pw(&[1], 2), pw(&[2], 4), pw(&[1, 2], 5)], 6, 8),
-        ("triangle-2-3-6", 2, vec![pw(&[1], 2), pw(&[2], 3), pw(&[1, 2], 6)], 4, 6),
-        ("modular-Z2*Z3", 2, vec![pw(&[1], 2), pw(&[2], 3)], 4, 6),
-        ("infinite-dihedral", 2, vec![pw(&[1], 2), pw(&[2], 2)], 4, 6),
-        ("BS-1-2", 2, vec![vec![1, 2, -1, -2, -2]], 4, 6),
-        ("trefoil", 2, vec![vec![1, 2, 1, -2, -1, -2]], 4, 5),
+        ("triangle-2-3-6", 2, vec![pw(&[1], 2), pw(&[2], 3), pw(&[1, 2], 6)], 4, 8),
+        ("modular-Z2*Z3", 2, vec![pw(&[1], 2), pw(&[2], 3)], 6, 7),
+        ("infinite-dihedral", 2, vec![pw(&[1], 2), pw(&[2], 2)], 6, 8),
+        ("BS-1-2", 2, vec![vec![1, 2, -1, -2, -2]], 5, 7),
+        ("trefoil", 2, vec![vec![1, 2, 1, -2, -1, -2]], 4, 6),
         ("Z2*Z", 2, vec![vec![1, 1]], 3, 4),
         ("Z-conj-relator", 2, vec![vec![1, 2, -1]], 4, 6),
     ];
@@ -369,7 +369,7 @@ fn main() {
         let g = Grp::infinite(&format!("pi1-{kind}-{si}"), fg.nr_generators(), rels);
         let mut rng = ctx.rng(1500 + si as u64);
         let mut tabs = Tables::new();
-        low_index(&g, if th { 4 } else { 3 }, &mut tabs);
+        low_index(&g, if th { 4 } else if g.nr_gens <= 3 { 4 } else { 3 }, &mut tabs);
         explore(&mut ctx, &g, &tabs, &mut rng, th, true);
     }
     ctx.finish();
